@@ -101,7 +101,17 @@ func KnownLine(line string) {
 func ExhaustivePart(part string, n int) { S.mu.Lock(); S.Exhaustive[part] = int64(n); S.mu.Unlock() }
 
 // Note stores a free-text note.
-func Note(k, v string) { S.mu.Lock(); S.Notes[k] = v; S.mu.Unlock() }
+func Note(k, v string) {
+	S.mu.Lock()
+	defer S.mu.Unlock()
+	if _, ok := S.Notes[k]; !ok && len(S.Notes) >= 40 {
+		return
+	}
+	if len(v) > 300 {
+		v = v[:300]
+	}
+	S.Notes[k] = v
+}
 
 // Sample keeps up to a few samples per class tag (and a global cap).
 func Sample(tag string, v any) {
